@@ -9,6 +9,7 @@
   What no model can show: the Go scheduler, the memory model and data races proper.
 -/
 import NibiruModel.Concurrency
+import Generated.Facts
 
 namespace Nibiru.Concurrency
 open Nibiru
@@ -38,6 +39,14 @@ theorem isolated_preserves (w w' : W) (s : Step) (hs : s.isolated = true) (r : R
       cases p with
       | T => exact absurd hq h7
       | Q => simp only [hq, setDb]; exact ⟨h1, h2, h3, h4, h5, h6, by simp [hq]⟩
+  · -- flush: the query's handle never designates the block's StateDB, so only the query's own branch is written
+    simp only [exec, handle]
+    cases hq : w.hQ with
+    | none => simp [hq]; exact ⟨h1, h2, h3, h4, h5, h6, by simp [hq]⟩
+    | some p =>
+      cases p with
+      | T => exact absurd hq h7
+      | Q => simp only [hq, setStore]; exact ⟨h1, h2, h3, h4, h5, h6, by simp [hq]⟩
 
 theorem block_step_congr (w w' : W) (s : Step) (r : Rel w w') : Rel (exec .T w s) (exec .T w' s) := by
   obtain ⟨h1, h2, h3, h4, h5, h6, h7⟩ := r
@@ -90,6 +99,20 @@ theorem block_step_congr (w w' : W) (s : Step) (r : Rel w w') : Rel (exec .T w s
         simp only [hp, hp', setDb, db, store]
         exact ⟨by simp [h1], by simp [h1, h2], by simp [hp, hp'], h4, by simp [hp], h6, h7⟩
   | commit =>
+    simp only [exec, handle]
+    cases hh : w.hT with
+    | none =>
+      have hh' : w'.hT = none := by rw [← h4, hh]
+      simp only [hh']
+      exact ⟨h1, h2, h3, by simp [hh, hh'], h5, by simp [hh], h7⟩
+    | some p =>
+      cases p with
+      | Q => exact absurd hh h6
+      | T =>
+        have hh' : w'.hT = some .T := by rw [← h4, hh]
+        simp only [hh', setStore, db]
+        exact ⟨by simp [h2], h2, h3, by simp [hh, hh'], h5, by simp [hh], h7⟩
+  | flush =>
     simp only [exec, handle]
     cases hh : w.hT with
     | none =>
@@ -180,5 +203,22 @@ theorem C09_counterexample_simulation_published_first :
 /-- non-vacuity: an isolated query in the middle of the block's transaction -/
 example : (run genesis blockTx [.privateNew, .evmAdd 2 50] [true, true, false, false]).storeT 2 = (runAlone genesis blockTx).storeT 2 :=
   congrFun (C09_noninterference_partial genesis rfl rfl rfl blockTx _ (by decide) _) 2
+
+/-- **C09 (value-carrying eth_call into a precompile query).** The query moves value inside its private StateDB and the precompile
+    entry flushes that StateDB into the query's own branch: under every interleaving the block commits what it commits alone. -/
+theorem C09_value_carrying_precompile_query_isolated (sched : List Bool) :
+    (run genesis blockTx ethCallValuePrecompileQuery sched).storeT = (runAlone genesis blockTx).storeT :=
+  C09_noninterference_partial genesis rfl rfl rfl blockTx _ (by decide) sched
+
+/-! ### T1 (regenerated from x/evm/keeper/statedb.go on every run) -/
+
+/-- `Keeper.SetAccBalance` — the write-back of a StateDB into its context, reached from `Commit` and from the intermediate flush at
+    every precompile entry, in DeliverTx and in queries alike — reads the balance through the wrapper and performs every coin
+    movement through the embedded `BaseKeeper` (`bk := k.Bank.BaseKeeper`): no write-back is mirrored into the StateDB that
+    `Keeper.Bank.StateDB` designates.  This is what makes `flush` and `commit` of the model steps without a `bankAdd`. -/
+theorem fact_C09_writeback_bypasses_the_wrapper :
+    Generated.setAccBalanceBankCalls =
+      ["k.Bank.GetBalance", "bk.MintCoins", "bk.SendCoinsFromModuleToAccount", "bk.SendCoinsFromAccountToModule", "bk.BurnCoins"] ∧
+    Generated.setAccBalanceKeeperBindings = ["bk := k.Bank.BaseKeeper"] := by decide
 
 end Nibiru.Concurrency
